@@ -597,6 +597,12 @@ func c01GenTraj(t *rapid.T) c01Traj {
 	case "sine":
 		c.P.Period = int64(c01LogUniform(t, "period", 1e6, 86400e9))
 		meanRate = c01LogUniform(t, "mean", 1e-3, 1e6)
+		if rapid.IntRange(0, 3).Draw(t, "longwave") == 0 {
+			// a long wave at a high rate: millions to billions of hits per period, where the wave part of the schedule is
+			// a difference of two huge numbers
+			c.P.Period = int64(c01LogUniform(t, "longperiod", 60e9, 86400e9))
+			meanRate = c01LogUniform(t, "highmean", 1e4, 1e6)
+		}
 		lateStart := rapid.IntRange(0, 3).Draw(t, "sine-late-start") == 0
 		if lateStart && rapid.Bool().Draw(t, "fewperperiod") {
 			// a wave with only a few hits per period: the rate changes a lot within one hit interval
@@ -668,7 +674,13 @@ func c01GenTraj(t *rapid.T) c01Traj {
 		for i := 0; i < n; i++ {
 			at := rapid.IntRange(0, c.Steps-1).Draw(t, fmt.Sprintf("at%d", i))
 			var d float64
-			switch rapid.IntRange(0, 3).Draw(t, fmt.Sprintf("dk%d", i)) {
+			dk := rapid.IntRange(0, 3).Draw(t, fmt.Sprintf("dk%d", i))
+			if c.P.Kind == "sine" && rapid.IntRange(0, 2).Draw(t, fmt.Sprintf("dfrac%d", i)) == 0 {
+				dk = 4
+			}
+			switch dk {
+			case 4: // a fraction of the wave: Period / 2^k, scaled a little
+				d = float64(c.P.Period) / float64(int64(1)<<uint(rapid.IntRange(4, 24).Draw(t, fmt.Sprintf("dfk%d", i)))) * rapid.Float64Range(0.5, 1).Draw(t, fmt.Sprintf("dff%d", i))
 			case 0:
 				d = interval * rapid.Float64Range(0.1, 3).Draw(t, fmt.Sprintf("d%d", i))
 			case 1:
@@ -691,7 +703,7 @@ func c01GenTraj(t *rapid.T) c01Traj {
 
 func TestC01Trajectory(t *testing.T) {
 	vh.Regress(t, "C01")
-	vh.Check(t, 1500, 12000, func(t *rapid.T) {
+	vh.Check(t, 6000, 12000, func(t *rapid.T) {
 		c := c01GenTraj(t)
 		var (
 			out c01Outcome
